@@ -406,3 +406,69 @@ def lazy_escapes(with_node: ast.With, mentions: str = "ctx"):
                 continue
             else:
                 yield n, f"it is bound or passed on by `{un(par)[:60]}`"
+
+
+def single_defs(fn) -> dict:
+    """Locals of `fn` bound exactly once in it, by a plain `x = E` (not a parameter, not declared
+    global / nonlocal, not bound by a loop, with, import, walrus or nested def): name -> the Assign."""
+    params = {a.arg for a in ast.walk(fn.args) if isinstance(a, ast.arg)}
+    stores, other = {}, set()
+    for n in walk_local(fn):
+        if isinstance(n, (ast.Global, ast.Nonlocal)):
+            other |= set(n.names)
+        elif isinstance(n, ast.Name) and isinstance(n.ctx, (ast.Store, ast.Del)):
+            st = parent(n)
+            if isinstance(st, ast.Assign) and len(st.targets) == 1 and st.targets[0] is n:
+                stores.setdefault(n.id, []).append(st)
+            else:
+                other.add(n.id)
+        elif isinstance(n, (ast.FunctionDef, ast.AsyncFunctionDef, ast.ClassDef)) and n is not fn:
+            other.add(n.name)
+    return {k: v[0] for k, v in stores.items() if len(v) == 1 and k not in params and k not in other}
+
+
+def expand_locals(fn, expr, keep=(), depth: int = 4):
+    """A copy of `expr` in which every single-definition local of `fn` (see single_defs) not in `keep`
+    is replaced by its defining expression, repeatedly.  A *data-flow view* -- which values reach this
+    expression -- for rules that ask where a value flows; it makes no claim about evaluation order."""
+    import copy
+
+    defs = single_defs(fn)
+
+    class T(ast.NodeTransformer):
+        def __init__(self, d):
+            self.d = d
+
+        def visit_Name(self, node):
+            if isinstance(node.ctx, ast.Load) and node.id in defs and node.id not in keep and self.d > 0:
+                return T(self.d - 1).visit(copy.deepcopy(defs[node.id].value))
+            return node
+
+    return T(depth).visit(copy.deepcopy(expr)) if expr is not None else None
+
+
+def keyword_sinks(fn, node, ctor: str, _seen=None) -> set:
+    """Where does the value computed at `node` end up?  The keyword names of `ctor(...)` calls it is
+    written under, following single-definition locals it is stored into on the way (`x = f(node)` ...
+    `ctor(body=x)`); None stands for any other destination."""
+    _seen = _seen if _seen is not None else set()
+    prev = node
+    for a in ancestors(node):
+        if a is fn:
+            break
+        if isinstance(a, ast.keyword):
+            par = parent(a)
+            if isinstance(par, ast.Call) and un(par.func) == ctor:
+                return {a.arg}
+        if isinstance(a, ast.Assign) and len(a.targets) == 1 and isinstance(a.targets[0], ast.Name) and contains(a.value, node):
+            name = a.targets[0].id
+            if single_defs(fn).get(name) is a and name not in _seen:
+                _seen.add(name)
+                loads = [n for n in walk_local(fn) if isinstance(n, ast.Name) and n.id == name and isinstance(n.ctx, ast.Load)]
+                out = set()
+                for ld in loads:
+                    out |= keyword_sinks(fn, ld, ctor, _seen)
+                return out  # a temporary nobody reads flows nowhere
+            return {None}
+        prev = a
+    return {None}
